@@ -19,7 +19,8 @@ RULE = (
     "DataArray + target_dim, 0-2 extra dims in random order, eager and dask-chunked over non-axis dims (synchronous / "
     "threaded scheduler), default and custom suffix, named and unnamed input. Oracle: own bracketing search + exact "
     "rational linear formula (rtol 1e-12; log 1e-9), NaN iff outside and mask_edges, nearest end value otherwise; new "
-    "dimension named after target / target_data; result name = input name + suffix. Class = (path, method, direction mix, "
+    "dimension named after target / target_data; result name = input name + suffix; the caller's (writable) data, "
+    "target_data and target arrays are byte-identical after the call and an immediate second identical call returns the same. Class = (path, method, direction mix, "
     "mask_edges, bypass, target kind, level placement mix, dask); non-trivial iff some level lies strictly inside a "
     "bracket or outside the range."
 )
@@ -116,10 +117,22 @@ def run_case(ctx, desc):
         import xgcm.transform as T
 
         lv = np.array(desc["levels"][0], float)
+        # the caller's own (writable) arrays: they must come back untouched, and the same call again gives the same
+        th_in = np.broadcast_to(theta, data.shape).copy()
+        keep = (data.copy(), th_in.copy(), lv.copy())
         try:
-            out = T.interp_1d_linear(data, np.broadcast_to(theta, data.shape), lv, mask_edges=mask, bypass_checks=bypass, logarithmic=log)
+            out = T.interp_1d_linear(data, th_in, lv, mask_edges=mask, bypass_checks=bypass, logarithmic=log)
+            again = T.interp_1d_linear(data, th_in, lv, mask_edges=mask, bypass_checks=bypass, logarithmic=log)
         except Exception as e:
             ctx.violation("kernel-returns", f"interp_1d_linear raised {type(e).__name__}: {str(e)[:200]}")
+            return
+        ctx.judged(("inputs-untouched", "kernel", method), True)
+        for nm, now, was in zip(("phi", "theta", "target levels"), (data, th_in, lv), keep):
+            if not np.array_equal(now, was):
+                ctx.violation("inputs-untouched", f"kernel {method}: the caller's {nm} array was modified by the call")
+                return
+        if not np.array_equal(np.asarray(out), np.asarray(again), equal_nan=True):
+            ctx.violation("inputs-untouched", f"kernel {method}: the same call on the same arrays gives a different result the second time")
             return
         flat = np.asarray(out, float).reshape((-1, ncol, len(lv)))
         dflat = data.astype(float).reshape((-1, ncol, n))
@@ -176,6 +189,7 @@ def run_grid(ctx, desc, data, theta, feats):
     if desc["dask"]:
         da = da.chunk({d: 1 for d in dims if d != "z_ce"})
         td = td.chunk({"col": 1})
+    keep = (data.copy(), theta.copy(), np.array(np.asarray(target), float))
     try:
         with dask.config.set(scheduler=desc["dask"] or "synchronous"):
             r = g.transform(da, "Z", target, target_data=td, method=method, mask_edges=mask, bypass_checks=bypass, **kw)
@@ -185,6 +199,21 @@ def run_grid(ctx, desc, data, theta, feats):
             r = r.compute()
     except Exception as e:
         ctx.violation("transform-returns", f"Grid.transform({method}, target {tkind}, dask={desc['dask']}) raised {type(e).__name__}: {str(e)[:250]}")
+        return
+    # the caller's arrays (data, target_data, target) come back untouched and a second identical call agrees
+    ctx.judged(("inputs-untouched", "grid", method, bool(desc["dask"]), bool(ex)), True)
+    for nm, now, was in zip(("data", "target_data", "target"), (data, theta, np.asarray(target)), keep):
+        if not np.array_equal(np.asarray(now, float), was.astype(float)):
+            ctx.violation("inputs-untouched", f"transform {method} (target {tkind}, dask={desc['dask']}): the caller's {nm} was modified by the call")
+            return
+    try:
+        with dask.config.set(scheduler=desc["dask"] or "synchronous"):
+            r2 = g.transform(da, "Z", target, target_data=td, method=method, mask_edges=mask, bypass_checks=bypass, **kw).compute()
+        if r2.dims != r.dims or not np.array_equal(r2.values, r.values, equal_nan=True):
+            ctx.violation("inputs-untouched", f"transform {method}: the same call on the same objects gives a different result the second time")
+            return
+    except Exception as e:
+        ctx.violation("transform-returns", f"second identical Grid.transform call raised {type(e).__name__}: {str(e)[:200]}")
         return
     if newdim not in r.dims:
         ctx.violation("new-dimension-name", f"result dims {r.dims}; the new dimension should be named {newdim!r} (target kind {tkind}, target_data name {desc['tdname']!r})")
